@@ -162,7 +162,16 @@ class Machine(object):
                 # the same constraint written in other units (badly scaled data: tiny or huge multipliers)
                 lhs, rhs = op["scale"] * lhs, op["scale"] * rhs
             rel = op["rel"]
-            c = (lhs <= rhs) if rel == "<=" else ((lhs >= rhs) if rel == ">=" else (lhs == rhs))
+            if rel == "<":            # strict comparisons are documented as their non-strict counterparts
+                c = lhs < rhs
+            elif rel == ">":
+                c = lhs > rhs
+            elif rel == "r<":         # reflected forms: the scalar / other expression on the left
+                c = rhs > lhs
+            elif rel == "r>":
+                c = rhs < lhs
+            else:
+                c = (lhs <= rhs) if rel == "<=" else ((lhs >= rhs) if rel == ">=" else (lhs == rhs))
             owner = op.get("owner", "pep")
             if owner == "pep":
                 if op.get("initial"):
@@ -585,7 +594,8 @@ def fam_method(rng, opts=None):
         _add_lmi(b)
     elif r < 0.45:
         e = b.expr(_rand_expr_terms(b, allow_const=False))
-        b.cons(e, b.pick(["<=", ">=", "=="]) if "boxed" in b.meta["features"] else "<=", b.pick([1.0, 0.5, 2.0]))
+        b.cons(e, b.pick(["<=", ">=", "==", "<", ">", "r<", "r>"]) if "boxed" in b.meta["features"] else b.pick(["<=", "<=", "<", "r<"]),
+               b.pick([1.0, 0.5, 2.0]))
         b.feat("user_constraint")
     if rng.random() < 0.3 and mets:
         # square-root metric through an ACTIVE LMI with a constant entry: maximise s subject to [[m, s],[s, 1]] >= 0
@@ -816,7 +826,7 @@ def fam_soup(rng, opts=None):
     for _ in range(nuser):
         e = b.expr(_rand_expr_terms(b, allow_const=False))
         owner = "pep" if rng.random() < 0.6 else b.pick(b.funcs)[0]
-        b.cons(e, b.pick(["<=", ">=", "=="]), b.pick([1.0, 0.5, 0.0, 2.0]) if rng.random() < 0.8 else
+        b.cons(e, b.pick(["<=", ">=", "==", "<", ">", "r<", "r>"]), b.pick([1.0, 0.5, 0.0, 2.0]) if rng.random() < 0.8 else
                b.expr(_rand_expr_terms(b, allow_const=True)), owner=owner,
                name=b.pick([None, None, "uc%d" % b.n]))
         b.feat("user_constraint")
